@@ -446,6 +446,10 @@ impl Interp {
             let at = node.op.as_ref().map(|o| o.name().to_string()).unwrap_or_else(|| "leaf".into());
             let mk = |kind: &str, detail: String, st: &HStats| HOutcome::Fail(HFail { kind: kind.to_string(), at: at.clone(), detail }, st.clone());
             if let Some(ga) = g.as_ref() {
+                // a stored gradient is a plain array: never tracked, whatever produced it (checked with the flags)
+                if self.or.flags && probe_tracked(ga) {
+                    return Err(mk("gradient-is-tracked", format!("after step {} ({}): the gradient stored on {} is a tracked array", idx, step_describe(s, &self.m), what()), &self.stats));
+                }
                 if self.or.grad_shapes && ga.dimensions() != &node.t.dims[..] {
                     return Err(mk("gradient-shape", format!("after step {} ({}): gradient of {} has dimensions {:?}", idx, step_describe(s, &self.m), what(), ga.dimensions()), &self.stats));
                 }
